@@ -3,6 +3,8 @@ The numerical content (vector-Jacobian products, linearity, chaining) is torch's
 
 from __future__ import annotations
 
+import ast
+
 from . import _inst, _layout, _pipe
 from .C01 import cotangent_rule, idiom_rules, materialise_rule
 
@@ -22,6 +24,12 @@ def _store_dependence(index, e, written):
         return None
     line = int(e["loc"].rsplit(":", 1)[1])
     st = next((s_ for s_ in ast.walk(fn.node) if isinstance(s_, (ast.Assign, ast.AnnAssign)) and s_.lineno == line), None)
+    if st is None:
+        # self.xs.append(v) / .extend / .add / .update / .insert / .setdefault: the container held by the attribute receives v
+        ex = next((s_ for s_ in ast.walk(fn.node) if isinstance(s_, ast.Expr) and s_.lineno == line and isinstance(s_.value, ast.Call) and isinstance(s_.value.func, ast.Attribute)
+                   and s_.value.func.attr in ("append", "appendleft", "extend", "add", "update", "insert", "setdefault", "__setitem__") and s_.value.args), None)
+        if ex is not None:
+            st = ast.Assign(targets=[ex.value.func.value], value=ast.Tuple(elts=list(ex.value.args), ctx=ast.Load()))
     if st is None or getattr(st, "value", None) is None:
         return None
 
@@ -106,7 +114,12 @@ def check(index, ctx):
     for (loc_, attr_), e in sorted(stateful.items()):
         dep = _store_dependence(index, e, written)
         k_ = f"{_layout.short_fn(e)}: self.{attr_}"
-        if dep == "input":
+        undone = dep == "input" and any(isinstance(t_, ast.Try) and any(isinstance(x, ast.Attribute) and x.attr == attr_ and isinstance(x.value, ast.Name) and x.value.id == "self"
+                                                                      for fb in t_.finalbody for x in ast.walk(fb))
+                                         for f_ in index.all_functions("torchjd.autojac._transform") for t_ in ast.walk(f_.node))
+        if undone:
+            ctx.undecided("S", k_, f"`{e['text'][:80]}` keeps per-application data in self.{attr_}; a `finally` block resets it — whether it does so on every exit of every application was not established", loc_)
+        elif dep == "input":
             ctx.violated("S", k_, f"`{e['text'][:80]}` stores to self.{attr_}, while the transform is applied, a value computed from what this application was given: a later application "
                          "reuses it (e.g. the row blocks of the first batch reused for a batch with another number of rows)", loc_)
         elif dep == "constructor":
